@@ -74,6 +74,16 @@ CHECKS = {
    technique="complete-cell DFS of the real generators with fd-level capture of stdout/stderr/log per execution; secret-glyph search plus non-interference across random streams and across two alphabet relabellings",
    text="Recipes are instantiated over glyphs that occur in no diagnostic text; every execution of their cells (returned, retried, refused, all-attempts-fail), NewWordList with duplicates and the entropy entry points are run with file descriptors 1 and 2 captured. No glyph may appear, and the captured text must be the same for every stream of an outcome class and for both relabellings - so it cannot encode the secret even indirectly.",
    note="Outcome classes are (returned/failed, words consumed); diagnostics may legitimately depend on those. Class-based recipes use non-interference only."),
+ "C08": dict(
+   engine="E2-maporder", category="model_checking", ref="§3 C08, §1 E2",
+   technique="exhaustive enumeration of Go map-iteration orders (source-instrumented scratch copy built with -overlay) x all input sequences over an 8-word universe, on the real NewWordList/Entropy",
+   text="Map iteration order is nondeterminism the tests never control. The instrumenter routes every map range of package spg through a hook; for every input sequence (all permutations/repetitions of every sub-multiset of 8 words, length <=3/4) every order of each range in NewWordList is executed, and Entropy() of 63-126 recipes must match the documented formula and be bit-identical across orders, permutations, repetitions, repeated calls and random streams.",
+   note="Orders: full product of the loops' orders for <=3 distinct words, one loop deviating at a time for more. The rewrite is validated on each run by passing /repo's own tests on the instrumented copy. Map ranges inside golang-set are left to the runtime."),
+ "C10": dict(
+   engine="E2-maporder", category="model_checking", ref="§3 C10, §1 E2",
+   technique="the same exhaustive map-order x input-sequence enumeration; kept set read back through the public API and compared with an independent normalisation model",
+   text="For every input sequence and every iteration order of the loops in NewWordList the kept set (read out by generating one-word passwords for every index, plus their capitalised forms) must equal the model's normalisation, Size() must match, the caller's slice must be untouched and the empty list rejected.",
+   note="As C08."),
 }
 
 PENDING_REASON = "check not built yet in this session (planned in DESIGN.md §3; will be claimed when its checker exists)"
@@ -110,6 +120,7 @@ def main():
             dict(name="E1-sweep", path="/verif/harness/checks/c01.go", serves_properties=["C01"], kind_free_text="full 2^32 word sweep over a scripted crypto/rand.Reader, shared-memory histogram"),
             dict(name="E1-cells", path="/verif/harness/checks/cells.go", serves_properties=["C02","C03","C04","C05","C06","C11","C13","C18"], kind_free_text="stateless DFS over announced draw outcomes (tape explorer) with exact rational leaf masses"),
             dict(name="E1-faults", path="/verif/harness/checks/c09.go", serves_properties=["C09"], kind_free_text="fault injector on the scripted reader: error/short-read at every read position"),
+            dict(name="E2-maporder", path="/verif/harness/instrument/instrument.go", serves_properties=["C08","C10"], kind_free_text="AST instrumenter (map ranges -> verifrt.MapKeys, optional scheduling points) + go build -overlay + DFS over all iteration orders"),
             dict(name="E-config", path="/verif/harness/checks/c07.go", serves_properties=["C07","C12","C16"], kind_free_text="exhaustive enumeration of recipe configurations (no randomness involved)"),
         ],
         checks=checks,
